@@ -81,6 +81,64 @@ pub fn space_name(id: usize) -> String {
 
 pub fn set_worker(id: usize) {
     WORKER.with(|w| w.set(id));
+    if id < MAX_WORKERS {
+        WORKER_PTHREAD[id].store(current_pthread(), Release);
+    }
+}
+
+/// pthread handles of the workers (0 = unknown), so that the watchdog can read a worker's CPU clock
+static WORKER_PTHREAD: [AtomicUsize; MAX_WORKERS] = [const { AtomicUsize::new(0) }; MAX_WORKERS];
+
+#[cfg(target_os = "linux")]
+mod cpuclock {
+    #[repr(C)]
+    pub struct Timespec {
+        pub sec: i64,
+        pub nsec: i64,
+    }
+    extern "C" {
+        pub fn pthread_self() -> usize;
+        pub fn pthread_getcpuclockid(thread: usize, clock: *mut i32) -> i32;
+        pub fn clock_gettime(clock: i32, ts: *mut Timespec) -> i32;
+    }
+}
+
+#[cfg(target_os = "linux")]
+fn current_pthread() -> usize {
+    unsafe { cpuclock::pthread_self() }
+}
+#[cfg(not(target_os = "linux"))]
+fn current_pthread() -> usize {
+    0
+}
+
+/// CPU time consumed so far by worker `w`'s thread, in ms (None if it cannot be read)
+#[cfg(target_os = "linux")]
+pub fn worker_cpu_ms(w: usize) -> Option<u64> {
+    if w >= MAX_WORKERS {
+        return None;
+    }
+    let t = WORKER_PTHREAD[w].load(Acquire);
+    if t == 0 {
+        return None;
+    }
+    let mut clock = 0i32;
+    let mut ts = cpuclock::Timespec { sec: 0, nsec: 0 };
+    unsafe {
+        if cpuclock::pthread_getcpuclockid(t, &mut clock) != 0 || cpuclock::clock_gettime(clock, &mut ts) != 0 {
+            return None;
+        }
+    }
+    Some(ts.sec as u64 * 1000 + ts.nsec as u64 / 1_000_000)
+}
+#[cfg(not(target_os = "linux"))]
+pub fn worker_cpu_ms(_w: usize) -> Option<u64> {
+    None
+}
+
+/// start stamp of worker `w`'s running case (0 = between cases)
+pub fn crumb_start_of(w: usize) -> u64 {
+    CRUMB_START_MS[w].load(Acquire)
 }
 
 pub fn worker() -> usize {
